@@ -44,8 +44,36 @@ func C06(c *Ctx) {
 		NonTrivial: func(m *ref.Result) bool { return m.Backtracks >= 2 && len(m.Trace) >= 2 },
 		StalePS:    "F02-stale-pred-pos",
 	}
+	c.runKnownF20()
 	c.ModelCheck(cfg)
 	c.c06Long()
+}
+
+// runKnownF20 executes the fixed witness of known finding F20.
+func (c *Ctx) runKnownF20() {
+	g := c06Strata()[0]
+	g.Finalize()
+	bt := c.BuildUnits([]*gast.Grammar{g}, [][]string{{}}, false, nil)
+	defer bt.Close()
+	if !bt.Units[0].OK {
+		c.Broken("F20 witness does not build: " + bt.Units[0].Fail)
+		return
+	}
+	fails := false
+	var cases []*mon.Case
+	ins := [][]byte{[]byte("xxy"), []byte("xxxy"), []byte("xy"), []byte("xxxxy"), []byte("xxyz"), []byte("xxxyz")}
+	for i, in := range ins {
+		cases = append(cases, &mon.Case{ID: fmt.Sprint("f20/", i), Pkg: bt.Units[0].Pkg, Input: in, Memo: true})
+	}
+	res := bt.Run(cases, runOptsDefault)
+	for i, in := range ins {
+		m := ref.Run(g, in, ref.Opts{})
+		if r := res[fmt.Sprint("f20/", i)]; r != nil && r.Val != m.ValCanon {
+			fails = true
+		}
+	}
+	c.MarkKnownStillFails("F20-memo-predicate-labels", fails)
+	c.Eval(len(ins))
 }
 
 // c06Long: the linear work bound on long, deeply nested inputs (300-900 bytes) where the
@@ -61,7 +89,7 @@ func (c *Ctx) c06Long() {
 		{Name: "Expr", Expr: gast.C(act(gast.S(gast.Lab("a", gast.Ref("Term")), gast.L("+"), gast.Lab("b", gast.Ref("Expr"))), 1), act(gast.S(gast.Lab("a", gast.Ref("Term")), gast.L("-"), gast.Lab("b", gast.Ref("Expr"))), 2), gast.Ref("Term"))},
 		{Name: "Term", Expr: gast.C(act(gast.S(gast.L("("), gast.Lab("a", gast.Ref("Expr")), gast.L(")")), 3), act(gast.Plus(gast.Cl(gast.Chars("01"))), 4))},
 	}}
-	gs := []*gast.Grammar{arith, c06Strata()[2], c06Strata()[3]}
+	gs := []*gast.Grammar{arith, c06Strata()[3], c06Strata()[4]}
 	p := pureProfile()
 	p.PBackRef = 60
 	for i := 0; i < c.N(10, 80); i++ {
@@ -149,6 +177,9 @@ func c06Strata() []*gast.Grammar {
 		return mk(rules...)
 	}
 	return []*gast.Grammar{
+		// a code predicate whose verdict depends on a label, reached at one offset with two different label values
+		mk(r("S", gast.C(gast.S(gast.Ref("A"), gast.L("z")), gast.S(gast.L("x"), gast.Ref("A")), gast.Star(gast.Dot()))),
+			r("A", act(gast.S(gast.Lab("a", gast.Star(gast.L("x"))), gast.AndC(7, mon.Spec{B: 4}), gast.Lab("b", gast.L("y"))), 1))),
 		// labelled item after a variable-length prefix, rule reached from two alternatives
 		mk(r("S", gast.C(gast.S(gast.Ref("A"), gast.L("z")), gast.S(gast.L("x"), gast.Ref("A")))),
 			r("A", act(gast.S(gast.Lab("a", gast.Star(gast.L("x"))), gast.Lab("b", gast.L("y"))), 1))),
